@@ -29,3 +29,10 @@ size_t vf_off_counter(void){ return offsetof(ctx_t, counter); }
 #include <stdlib.h>
 void *vf_rsa_new(void){ rsa_t *r = (rsa_t*)malloc(sizeof(rsa_t)); rsa_new(*r); return r; }
 void *vf_rsa_field(void *r, int i){ rsa_t *k=(rsa_t*)r; switch(i){ case 0: return (*k)->d; case 1: return (*k)->e; case 2: return (*k)->crt->n; case 3: return (*k)->crt->p; case 4: return (*k)->crt->q; case 5: return (*k)->crt->dp; case 6: return (*k)->crt->dq; case 7: return (*k)->crt->qi;} return 0; }
+size_t vf_sizeof_ctx(void){ return sizeof(ctx_t); }
+size_t vf_sizeof_phpe(void){ return sizeof(phpe_t); }
+size_t vf_sizeof_rabin(void){ return sizeof(rabin_t); }
+size_t vf_sizeof_bdpe(void){ return sizeof(bdpe_t); }
+void *vf_phpe_new(void){ phpe_t *r=(phpe_t*)malloc(sizeof(phpe_t)); phpe_new(*r); return r; }
+void *vf_rabin_new(void){ rabin_t *r=(rabin_t*)malloc(sizeof(rabin_t)); rabin_new(*r); return r; }
+void *vf_bdpe_new(void){ bdpe_t *r=(bdpe_t*)malloc(sizeof(bdpe_t)); bdpe_new(*r); return r; }
